@@ -88,41 +88,46 @@ class PDFPage:
             parent: Dict[str, Any],
             visited: Optional[Set[Any]] = None,
         ) -> Iterator[Tuple[int, Dict[Any, Dict[Any, Any]]]]:
-            if isinstance(obj, int):
-                object_id = obj
-                object_properties = dict_value(document.getobj(object_id)).copy()
-            else:
-                # This looks broken. obj.objid means obj could be either
-                # PDFObjRef or PDFStream, but neither is valid for dict_value.
-                object_id = getattr(obj, "objid", None)
-                if object_id is None:
-                    # Not an indirect object: it cannot be a node of the tree.
-                    return
-                object_properties = dict_value(obj).copy()
-
             # Avoid recursion errors by keeping track of visited nodes
             if visited is None:
                 visited = set()
-            if object_id in visited:
-                return
-            visited.add(object_id)
+            # The tree is walked with a stack of (node, attributes of its
+            # parent) pairs, not by recursion: its depth is up to the file.
+            stack: List[Tuple[Any, Dict[str, Any]]] = [(obj, parent)]
+            while stack:
+                (obj, parent) = stack.pop()
+                if isinstance(obj, int):
+                    object_id = obj
+                    object_properties = dict_value(document.getobj(object_id)).copy()
+                else:
+                    # This looks broken. obj.objid means obj could be either
+                    # PDFObjRef or PDFStream, but neither is valid for dict_value.
+                    object_id = getattr(obj, "objid", None)
+                    if object_id is None:
+                        # Not an indirect object: it cannot be a node of the tree.
+                        continue
+                    object_properties = dict_value(obj).copy()
 
-            for k, v in parent.items():
-                if k in cls.INHERITABLE_ATTRS and k not in object_properties:
-                    object_properties[k] = v
+                if object_id in visited:
+                    continue
+                visited.add(object_id)
 
-            object_type = object_properties.get("Type")
-            if object_type is None and not settings.STRICT:  # See #64
-                object_type = object_properties.get("type")
+                for k, v in parent.items():
+                    if k in cls.INHERITABLE_ATTRS and k not in object_properties:
+                        object_properties[k] = v
 
-            if object_type is LITERAL_PAGES and "Kids" in object_properties:
-                log.debug("Pages: Kids=%r", object_properties["Kids"])
-                for child in list_value(object_properties["Kids"]):
-                    yield from depth_first_search(child, object_properties, visited)
+                object_type = object_properties.get("Type")
+                if object_type is None and not settings.STRICT:  # See #64
+                    object_type = object_properties.get("type")
 
-            elif object_type is LITERAL_PAGE:
-                log.debug("Page: %r", object_properties)
-                yield (object_id, object_properties)
+                if object_type is LITERAL_PAGES and "Kids" in object_properties:
+                    log.debug("Pages: Kids=%r", object_properties["Kids"])
+                    kids = list_value(object_properties["Kids"])
+                    stack.extend((child, object_properties) for child in reversed(kids))
+
+                elif object_type is LITERAL_PAGE:
+                    log.debug("Page: %r", object_properties)
+                    yield (object_id, object_properties)
 
         try:
             page_labels: Iterator[Optional[str]] = document.get_page_labels()
